@@ -55,6 +55,9 @@ pub enum HFault {
     /// a whole object replaced by `depth` nested one-element arrays around a reference to itself
     /// (`5 0 obj [5 0 R]`, `5 0 obj [[[5 0 R]]]`)
     SelfArray { rev: usize, num: u32, depth: usize },
+    /// one array made longer (a copy of its last element, or 0, appended: `grow` 1 or 3) or shorter
+    /// (its last element removed: `grow` -1)
+    ArrayLen { site: Site, grow: i32 },
 }
 
 const HOSTILE_STRINGS: [&[u8]; 14] = [
@@ -104,7 +107,7 @@ impl HFault {
     /// the object the fault is planted in (None: the cross-reference section / trailer)
     pub fn obj_num(&self) -> Option<u32> {
         match self {
-            HFault::Retarget { site, .. } | HFault::Boundary { site, .. } | HFault::Nest { site, .. } | HFault::DropKey { site } | HFault::StrValue { site, .. } | HFault::NameValue { site, .. } => Some(site.num),
+            HFault::Retarget { site, .. } | HFault::Boundary { site, .. } | HFault::Nest { site, .. } | HFault::DropKey { site } | HFault::StrValue { site, .. } | HFault::NameValue { site, .. } | HFault::ArrayLen { site, .. } => Some(site.num),
             HFault::LenRef { num, .. } | HFault::Payload { num, .. } | HFault::StreamKey { num, .. } | HFault::SelfArray { num, .. } => Some(*num),
             HFault::Override { .. } => None,
         }
@@ -122,6 +125,7 @@ impl HFault {
             HFault::StrValue { .. } => "string_value",
             HFault::NameValue { .. } => "name_value",
             HFault::SelfArray { .. } => "self_array",
+            HFault::ArrayLen { .. } => "array_length",
         }
     }
     pub fn to_json(&self) -> J {
@@ -136,6 +140,7 @@ impl HFault {
             HFault::StrValue { site, bytes } => json!({"kind": "string_value", "site": site_json(site), "bytes": crate::docgen::hex(bytes)}),
             HFault::NameValue { site, name } => json!({"kind": "name_value", "site": site_json(site), "name": name}),
             HFault::SelfArray { rev, num, depth } => json!({"kind": "self_array", "rev": rev, "num": num, "depth": depth}),
+            HFault::ArrayLen { site, grow } => json!({"kind": "array_length", "site": site_json(site), "grow": grow}),
             HFault::StreamKey { rev, num, key, text } => json!({"kind": "stream_key", "rev": rev, "num": num, "key": key, "text": text.chars().take(80).collect::<String>(), "len": text.len()}),
         }
     }
@@ -149,6 +154,7 @@ impl HFault {
             "payload" => HFault::Payload { rev: j.get("rev")?.as_u64()? as usize, num: j.get("num")?.as_u64()? as u32, data: j.get("data")?.as_str()?.as_bytes().to_vec() },
             "drop_key" => HFault::DropKey { site: site_from(j.get("site")?)? },
             "string_value" => HFault::StrValue { site: site_from(j.get("site")?)?, bytes: crate::docgen::unhex(j.get("bytes")?.as_str()?)? },
+            "array_length" => HFault::ArrayLen { site: site_from(j.get("site")?)?, grow: j.get("grow")?.as_i64()? as i32 },
             "self_array" => HFault::SelfArray { rev: j.get("rev")?.as_u64()? as usize, num: j.get("num")?.as_u64()? as u32, depth: j.get("depth")?.as_u64()? as usize },
             "name_value" => HFault::NameValue { site: site_from(j.get("site")?)?, name: j.get("name")?.as_str()?.to_string() },
             "stream_key" => HFault::StreamKey { rev: j.get("rev")?.as_u64()? as usize, num: j.get("num")?.as_u64()? as u32, key: j.get("key")?.as_str()?.to_string(), text: j.get("text")?.as_str()?.to_string() },
@@ -183,6 +189,37 @@ fn collect_all(v: &Val, path: &mut Vec<PathElem>, refs: &mut Vec<Vec<PathElem>>,
             }
         }
         _ => {}
+    }
+}
+
+fn collect_arrays(v: &Val, path: &mut Vec<PathElem>, out: &mut Vec<Vec<PathElem>>) {
+    match v {
+        Val::Arr(a) => {
+            out.push(path.clone());
+            for (i, x) in a.iter().enumerate() {
+                path.push(PathElem::Idx(i));
+                collect_arrays(x, path, out);
+                path.pop();
+            }
+        }
+        Val::Dict(d) => {
+            for (k, x) in d {
+                path.push(PathElem::Key(k.clone()));
+                collect_arrays(x, path, out);
+                path.pop();
+            }
+        }
+        _ => {}
+    }
+}
+fn value_at<'a>(v: &'a Val, path: &[PathElem]) -> Option<&'a Val> {
+    if path.is_empty() {
+        return Some(v);
+    }
+    match (&path[0], v) {
+        (PathElem::Idx(i), Val::Arr(a)) => a.get(*i).and_then(|x| value_at(x, &path[1..])),
+        (PathElem::Key(k), Val::Dict(d)) => d.iter().find(|(kk, _)| kk == k).and_then(|(_, x)| value_at(x, &path[1..])),
+        _ => None,
     }
 }
 
@@ -302,6 +339,13 @@ pub fn single_faults_near(spec: &DocSpec, first: u32) -> Vec<HFault> {
                 for p in strs {
                     for h in HOSTILE_STRINGS {
                         out.push(HFault::StrValue { site: Site { rev: ri, num, path: p.clone() }, bytes: h.to_vec() });
+                    }
+                }
+                let mut arrays = vec![];
+                collect_arrays(&v, &mut vec![], &mut arrays);
+                for p in arrays {
+                    for grow in [1, 3, -1] {
+                        out.push(HFault::ArrayLen { site: Site { rev: ri, num, path: p.clone() }, grow });
                     }
                 }
                 for p in names {
@@ -438,6 +482,25 @@ pub fn apply(spec: &DocSpec, faults: &[HFault]) -> DocSpec {
                     }
                 }
             }
+            HFault::ArrayLen { site, grow } => {
+                if let Some(slot) = s.revisions.get_mut(site.rev).and_then(|r| r.slots.get_mut(&site.num)) {
+                    if let Some(mut v) = slot_val(slot) {
+                        if let Some(Val::Arr(a)) = value_at(&v, &site.path).cloned() {
+                            let mut a = a;
+                            if *grow < 0 {
+                                a.pop();
+                            } else {
+                                for k in 0..*grow {
+                                    a.push(if k == 0 { a.last().cloned().unwrap_or(Val::Int(0)) } else { Val::Int(0) });
+                                }
+                            }
+                            if replace_at(&mut v, &site.path, Val::Arr(a)) {
+                                set_slot_val(slot, v);
+                            }
+                        }
+                    }
+                }
+            }
             HFault::SelfArray { rev, num, depth } => {
                 if let Some(slot) = s.revisions.get_mut(*rev).and_then(|r| r.slots.get_mut(num)) {
                     let mut v = Val::Ref(*num, 0);
@@ -528,6 +591,18 @@ impl C14 {
         // the name-value and string-value faults are the bulk of the space (34 names / 14 strings per
         // site): the quick tier enumerates every third of them (in a fixed rotation), the thorough tier all
         if tier == Tier::Quick {
+            // retargets: every reference field meets itself, its neighbours, object 0, an undefined
+            // number, the first and last three objects and every fifth of the others (thorough: all)
+            for v in singles.iter_mut() {
+                let max = v.iter().filter_map(|f| f.obj_num()).max().unwrap_or(0);
+                v.retain(|f| match f {
+                    HFault::Retarget { site, target } => {
+                        let (n, t) = (site.num as i64, *target as i64);
+                        t == 0 || t > max as i64 || (t - n).abs() <= 1 || t <= 3 || t + 2 >= max as i64 || (t + n) % 5 == 0
+                    }
+                    _ => true,
+                });
+            }
             for v in singles.iter_mut() {
                 let mut k = 0usize;
                 v.retain(|f| {
